@@ -126,6 +126,13 @@ fn positions() -> &'static Vec<Pos> {
             Pos { name: "claim-key-before-wrong-kind-iss", build: |n, _m| Item::Map(vec![(n, Item::Int(0)), (Item::Int(1), Item::Int(5))]), recode: recode!(ClaimsSet), accepts: |i| m_claims(i).is_ok(), unsigned: false, uninterpreted: false },
             Pos { name: "claim-exp-before-unregistered-key", build: |n, _m| Item::Map(vec![(Item::Int(4), n), (Item::Int(-5), Item::Int(5))]), recode: recode!(ClaimsSet), accepts: |i| m_claims(i).is_ok(), unsigned: false, uninterpreted: false },
             Pos { name: "countersig-label-before-later-fault", build: |n, _m| map1(Item::Int(7), Item::Array(vec![Item::Bytes(vec![]), Item::Map(vec![(n, Item::Null), (Item::Int(3), Item::Text("nonsense".into()))]), Item::Bytes(vec![1])])), recode: recode!(Header), accepts: |i| m_header(i, &mut MCtx::default()).is_ok(), unsigned: false, uninterpreted: false },
+            // ... the same in lists of structures: the integer sits in an earlier member, a later member is not
+            // even a structure
+            Pos { name: "countersig-array-first-member-label-then-non-array-member", build: |n, _m| map1(Item::Int(7), Item::Array(vec![Item::Array(vec![Item::Bytes(vec![]), map1(n, Item::Null), Item::Bytes(vec![1])]), Item::Int(0)])), recode: recode!(Header), accepts: |i| m_header(i, &mut MCtx::default()).is_ok(), unsigned: false, uninterpreted: false },
+            Pos { name: "countersig-array-first-member-alg-then-text-member", build: |n, _m| map1(Item::Int(7), Item::Array(vec![Item::Array(vec![Item::Bytes(vec![]), map1(Item::Int(1), n), Item::Bytes(vec![1])]), Item::Text("x".into()), Item::Array(vec![])])), recode: recode!(Header), accepts: |i| m_header(i, &mut MCtx::default()).is_ok(), unsigned: false, uninterpreted: false },
+            Pos { name: "encrypt-first-recipient-label-then-non-array-member", build: |n, _m| Item::Array(vec![Item::Bytes(vec![]), Item::Map(vec![]), Item::Null, Item::Array(vec![Item::Array(vec![Item::Bytes(vec![]), map1(n, Item::Null), Item::Null]), Item::Int(0)])]), recode: recode!(coset::CoseEncrypt), accepts: |i| m_msg(Kind::Encrypt, i, &mut MCtx::default()).is_ok(), unsigned: false, uninterpreted: false },
+            Pos { name: "mac-first-recipient-alg-then-map-member", build: |n, _m| Item::Array(vec![Item::Bytes(vec![]), Item::Map(vec![]), Item::Null, Item::Bytes(vec![]), Item::Array(vec![Item::Array(vec![Item::Bytes(vec![]), map1(Item::Int(1), n), Item::Null]), Item::Map(vec![])])]), recode: recode!(coset::CoseMac), accepts: |i| m_msg(Kind::Mac, i, &mut MCtx::default()).is_ok(), unsigned: false, uninterpreted: false },
+            Pos { name: "keyset-first-key-alg-then-non-map-member", build: |n, _m| Item::Array(vec![Item::Map(vec![(Item::Int(1), Item::Int(1)), (Item::Int(3), n)]), Item::Array(vec![])]), recode: recode!(coset::CoseKeySet), accepts: |i| m_keyset(i).is_ok(), unsigned: false, uninterpreted: false },
             Pos { name: "header-extra-value", build: |n, _m| map1(Item::Int(100), n), recode: recode!(Header), accepts: |_| true, unsigned: false, uninterpreted: true },
             Pos { name: "key-extra-value", build: |n, _m| Item::Map(vec![(Item::Int(1), Item::Int(1)), (Item::Int(-1), n)]), recode: recode!(CoseKey), accepts: |_| true, unsigned: false, uninterpreted: true },
             // ... also as the *key* of a map nested inside an extra value (and deeper: in an array, under a tag)
@@ -381,6 +388,24 @@ fn value_level(n: i128) -> CaseResult {
             same_number("ClaimsSet::from_cbor_value", &c.rest.first().ok_or("claim lost")?.1)?;
         }
     }
+    // the same spelling where the crate *interprets* the integer (a label, a nonce, a time stamp): a
+    // bignum tag is not an integer of the library's data model, so refusing it is fine; taking it is
+    // fine only as exactly n
+    if let Ok(l) = Label::from_cbor_value(big.clone()) {
+        ensure!(i64::try_from(n).map(|v| l == Label::Int(v)).unwrap_or(false), "Label::from_cbor_value took the bignum-tag spelling of {} for {:?}", n, l);
+    }
+    if let Ok(h) = Header::from_cbor_value(Value::Map(vec![(big.clone(), Value::Null)])) {
+        ensure!(h.rest.len() == 1 && i64::try_from(n).map(|v| h.rest[0].0 == Label::Int(v)).unwrap_or(false), "Header::from_cbor_value took the bignum-tag spelling of label {} for {:?}", n, h.rest);
+    }
+    if let Ok(p) = PartyInfo::from_cbor_value(Value::Array(vec![Value::Null, big.clone(), Value::Null])) {
+        ensure!(i64::try_from(n).map(|v| p.nonce == Some(coset::Nonce::Integer(v))).unwrap_or(false), "PartyInfo::from_cbor_value took the bignum-tag spelling of nonce {} for {:?}", n, p.nonce);
+    }
+    if let Ok(c) = ClaimsSet::from_cbor_value(Value::Map(vec![(Value::from(4), big.clone())])) {
+        ensure!(i64::try_from(n).map(|v| c.expiration_time == Some(coset::cwt::Timestamp::WholeSeconds(v))).unwrap_or(false), "ClaimsSet::from_cbor_value took the bignum-tag spelling of exp {} for {:?}", n, c.expiration_time);
+    }
+    if let Ok(sp) = SuppPubInfo::from_cbor_value(Value::Array(vec![big.clone(), Value::Bytes(vec![])])) {
+        ensure!(u64::try_from(n).map(|v| sp.key_data_length == v).unwrap_or(false), "SuppPubInfo::from_cbor_value took the bignum-tag spelling of key data length {} for {}", n, sp.key_data_length);
+    }
     Ok(())
 }
 
@@ -482,7 +507,7 @@ pub fn property() -> Property {
     Property {
         id: "C15",
         title: "Integers are decoded exactly or rejected as out of range, never wrapped",
-        rule: "integer n x interpreting position (61 positions (incl. an out-of-range integer that is the first of several faults of its map (no kty, a later ill-formed entry), labels beside populated typed fields, map keys nested inside extra values, the same integer twice as labels of one map, positions inside counter-signature arrays, nested recipients, key sets, and pairs of adjacent integers in one map): labels, alg, kty, content type, crit / key_ops entries, claim keys, nonces, timestamps, key data length, registry labels, and uninterpreted extra values) \
+        rule: "integer n x interpreting position (66 positions (incl. an out-of-range integer that is the first of several faults of its map (no kty, a later ill-formed entry), labels beside populated typed fields, map keys nested inside extra values, the same integer twice as labels of one map, positions inside counter-signature arrays, nested recipients, key sets, and pairs of adjacent integers in one map): labels, alg, kty, content type, crit / key_ops entries, claim keys, nonces, timestamps, key data length, registry labels, and uninterpreted extra values) \
                x head width (every legal width and the bignum form); exhaustive over the boundary lattice (c-3..c+3 around 0, 23/24, 2^8, 2^16, 2^31, 2^32, 2^63, 2^64 of both signs), random elsewhere in [-2^64, 2^64-1]; \
                non-trivial = |n| >= 2^31 or n on the lattice; distinct by (position, n, width)",
         assumptions: &["oracle: out-of-range => the out-of-range error; in range => accepted iff the reference model accepts, and the re-encoding read by the strict reader holds exactly n"],
